@@ -372,6 +372,16 @@ class C07(BridgeProp):
             ])
             dg = [{"do": "dgram", "p": rng.choice(ports), "d": rdev(rng), "cbraise": rng.random() < 0.15} for _ in range(rng.randrange(3, 12))]
             out.append({"ports": ports, "ports2": ports[: rng.randrange(1, nports + 1)], "steps": pre + dg + [{"do": "stop"}, {"do": "cycle"}]})
+        # an error the OS reports on a listening socket (ICMP unreachable, network down: asyncio calls error_received) is one
+        # more thing that "arrives": deliveries go on, on that port and every other
+        for _ in range(ctx.pick(40, 600)):
+            ports = PORTS[:rng.randrange(1, 4)]
+            dg = []
+            for _i in range(rng.randrange(3, 10)):
+                dg.append({"do": "dgram", "p": rng.choice(ports), "d": rdev(rng), "cbraise": rng.choice(KINDS) if rng.random() < 0.1 else False})
+                if rng.random() < 0.5:
+                    dg.append({"do": "neterr", "p": rng.choice(ports), "exc": rng.random() < 0.7})
+            out.append(wrap(ports, dg))
         # every family x every way a user's callback can fail (the exception types a parser may also catch for itself):
         # once per broadcast, and the next broadcast is delivered as if nothing had happened
         for kind in KINDS:
@@ -468,6 +478,19 @@ class C17(BridgeProp):
                 out.append({"ports": ps, "steps": [{"do": "occupy", "p": ps[-1]}, {"do": "start"}, {"do": "free", "p": ps[-1]}, {"do": "cycle"}, nl,
                                                     {"do": "start"}, dgm(), {"do": "stop"}, {"do": "cycle"}]})
                 out.append({"ports": ps, "steps": [nl, {"do": "stop"}, {"do": "start"}, dgm(), {"do": "stop"}, {"do": "cycle"}]})
+        # the OS reports an error on one of the sockets while the bridge runs: it keeps running AND listening (a transport closed
+        # "to be safe" leaves a bridge that says it runs and hears nothing)
+        for _ in range(ctx.pick(40, 600)):
+            ps = PORTS[:rng.randrange(1, 4)]
+            steps = [{"do": "start"}]
+            for _i in range(rng.randrange(1, 5)):
+                steps.append({"do": "neterr", "p": rng.choice(ps), "exc": rng.random() < 0.7})
+                if rng.random() < 0.7:
+                    steps.append({"do": "dgram", "p": rng.choice(ps), "d": rdev(rng), "cbraise": False})
+            steps += [{"do": "stop"}, {"do": "cycle"}]
+            if rng.random() < 0.4:
+                steps += [{"do": "start"}, {"do": "dgram", "p": rng.choice(ps), "d": rdev(rng), "cbraise": False}, {"do": "stop"}, {"do": "cycle"}]
+            out.append({"ports": ps, "steps": steps})
         # stop() racing with datagrams that are already on their way: nothing may reach the callback once stop has returned
         for _ in range(ctx.pick(200, 3000)):
             np_ = rng.randrange(1, 4)
